@@ -144,6 +144,43 @@ def count_race_case(seed, i, engine):
     return core.ImplOnlyCase("backend", lines, {"engine": engine, "count_race": True}, timeout=60)
 
 
+def big_page_case(i, engine):
+    """a limited range whose limit is as large as the pages newer kube-apiservers ask for (10000) over a directory with a few
+    more keys than that: the page holds exactly `limit` keys and says `more`; the next page (continue key = last key + \\0)
+    holds the rest and says it is the end. Implementation only (the executable model is not run over 10^4 keys)."""
+    n = [10050, 10001, 10000][i % 3]
+    lim = [10000, 10000, 10020][i % 3]
+    pfx = PREFIX + b"/bp/"
+    a, b = hx(pfx), hx(PREFIX + b"/bp0")
+    last = pfx + (b"%05d" % (min(lim, n) - 1))
+    lines = [hist.cfg_line(engine), "bulk %d %s %s" % (n, hx(pfx), hx(b"v")), "settle", "rev",
+             "list %s %s 0 %d" % (a, b, lim), "list %s %s 0 %d" % (hx(last + b"\x00"), b, lim), "count %s %s" % (a, b)]
+    return core.ImplOnlyCase("backend", lines, {"engine": engine, "big_page": (n, lim)}, timeout=120)
+
+
+def big_page_oracle(case):
+    n, lim = case.meta["big_page"]
+    out = case.impl or []
+    if len(out) < len(case.lines) or any(x == "TIMEOUT" or x.startswith("CRASHED") for x in out):
+        return ("the script with a page of %d keys did not finish: %s" % (lim, [x[:80] for x in out][-2:]), "big-page-unanswered")
+    def parse(o):
+        t = o.split()
+        return t[1], t[2], (0 if len(t) < 4 or t[3] == "-" else t[3].count(",") + 1)
+    h1, more1, k1 = parse(out[4])
+    h2, more2, k2 = parse(out[5])
+    if h1 == "err" or h2 == "err":
+        return ("a limited range with limit %d over %d keys was refused: %s / %s" % (lim, n, out[4][:80], out[5][:80]), "big-page-refused")
+    want1, wmore1 = min(lim, n), "1" if n > lim else "0"
+    if k1 != want1 or more1 != wmore1:
+        return ("a range with limit %d over %d live keys answered %d keys with more=%s (want %d keys, more=%s): a client that trusts the "
+                "flag never asks for the rest" % (lim, n, k1, more1, want1, wmore1), "more-flag-wrong")
+    if k2 != n - want1 or more2 != "0":
+        return ("the page after the first %d keys answered %d keys with more=%s (want %d, more=0)" % (want1, k2, more2, n - want1), "more-flag-wrong")
+    if out[6].split()[2:3] != [str(n)]:
+        return ("count over %d live keys answered %s" % (n, out[6][:60]), "range-count")
+    return None
+
+
 def count_race_oracle(case):
     ref = hist.Ref()
     for i, (line, out) in enumerate(zip(case.lines, case.impl)):
@@ -220,9 +257,10 @@ def check(rep, tier, seed):
         cases.append(sched.gen_schedule(r, 4, r.sample(KEY_POOL[:8], 2), ENGINES[i % 3]))
     cases += [iterfault_case(seed, i, (ENGINES + ["metrics-memkv"])[i % 5]) for i in range(10 if tier == "quick" else 90)]
     cases += [count_race_case(seed, i, ENGINES[i % 3]) for i in range(9 if tier == "quick" else 180)]
+    cases += [big_page_case(i, ["memkv", "badger", "tikv"][i % 3]) for i in range(2 if tier == "quick" else 6)]
     core.run_cases(cases)
-    pick = lambda c: count_race_oracle(c) if c.meta.get("count_race") else hist.check_reads(c)
-    if core.judge(rep, "C03", cases, pick, shrink_fn=lambda x: not x.meta.get("count_race") and hist.check_reads(x) is not None):
+    pick = lambda c: big_page_oracle(c) if c.meta.get("big_page") else count_race_oracle(c) if c.meta.get("count_race") else hist.check_reads(c)
+    if core.judge(rep, "C03", cases, pick, shrink_fn=lambda x: not x.meta.get("count_race") and not x.meta.get("big_page") and hist.check_reads(x) is not None):
         return
     rep.assumptions += ["reads at revisions the node has reported readable (<= committed) and >= compaction floor",
                         "through the etcd endpoint (suite `etcd`, scripts and oracle of C16): paginated lists, counts and point reads at "
